@@ -73,6 +73,9 @@ def run(ctx):
     from ..estimators import rule_E_shell
     rule_L1_sampler(ctx, {'shell'})
     rule_L1d_transition(ctx)
+    from ..sampler_rules import rule_G6
+    k6 = rule_G6(ctx)      # the exploration boundary is a copy of the counts, not an alias
+    ctx.require(k6 >= 1, 'G6 saw no snapshot assignment (floor 1: shell_n_sample_exp)')
     rule_T3(ctx)
     rule_U1(ctx)
     rule_A8(ctx)
